@@ -175,6 +175,7 @@ type c03Case struct {
 	a, b   tensor.Tensor
 	compat bool
 	so     []int
+	same   bool // the very same tensor object is passed as both operands (x op x)
 }
 
 func (c c03Case) String() string {
@@ -260,6 +261,10 @@ func c03Gen(rt *rapid.T) c03Case {
 		}
 	}
 	c.a = genTensor(c.dt, sa, true).Draw(rt, "A")
+	if eqInts(sa, sb) && c.compat && rapid.IntRange(0, 5).Draw(rt, "sameObject") == 0 {
+		c.b, c.same = c.a, true
+		return c
+	}
 	c.b = genTensor(c.dt, sb, true).Draw(rt, "B")
 	if c.op == "Div" && isInt(c.dt) {
 		// integer division by zero is undefined in ONNX: replace zero divisors by 1
@@ -304,6 +309,9 @@ func TestC03(t *testing.T) {
 		node := mkNode(c.op, []string{"a", "b"}, []string{"y"})
 		sa, sb := snap(c.a), snap(c.b)
 		ins := []tensor.Tensor{cloneT(c.a), cloneT(c.b)}
+		if c.same {
+			ins[1] = ins[0]
+		}
 		res := runOp(c.op, node, ins)
 		stretchedA, stretchedB := !eqInts(c.a.Shape(), c.so), !eqInts(c.b.Shape(), c.so)
 		cls := []string{"op-" + c.op, "dtype-" + c.dt.String()}
@@ -319,6 +327,9 @@ func TestC03(t *testing.T) {
 		}
 		if len(c.a.Shape()) == 0 || len(c.b.Shape()) == 0 {
 			cls = append(cls, "rank0-operand")
+		}
+		if c.same {
+			cls = append(cls, "same-object-both-operands")
 		}
 		nontrivial := !eqInts(c.a.Shape(), c.b.Shape()) || hasSpecial(c.a) || hasSpecial(c.b)
 		ev.Case("C03", c.String(), nontrivial, cls...)
